@@ -11,6 +11,12 @@
    unsigned or constant counts, so the run-time panic of a negative count is outside the fragment; a count of the
    width or more gives 0 for [<<] and 0 / -1 for [>>] (arithmetic on signed), which [Z.shiftr] gives by itself.
 
+   A shift by a signed count that is not a constant panics at run time when the count is negative: a function
+   holding one is translated as PARTIAL (result [option], [None] = the Go function panics), with the test
+   [0 <= count] emitted in front of the statement.  math/bits.RotateLeft64 is [go_rotl64], its documented behaviour
+   (rotate left by k mod 64, i.e. right for negative k) written as in the library: s = uint(k) & 63;
+   x<<s | x>>(64-s).
+
    Loops are [while fuel cond body s]: [None] when the fuel runs out with the condition still true; the theorems
    about translated functions show a fuel that suffices and so exclude that case. *)
 From Coq Require Import ZArith Bool Lia.
@@ -36,6 +42,8 @@ Definition go_andnot (t : ity) (a b : Z) : Z := go_wrap t (Z.land a (Z.lnot b)).
 Definition go_shl (t : ity) (a s : Z) : Z := if go_bits t <=? s then 0 else go_wrap t (a * 2 ^ s).
 Definition go_shr (t : ity) (a s : Z) : Z := Z.shiftr a s.
 Definition go_cast (t : ity) (a : Z) : Z := go_wrap t a.
+Definition go_rotl64 (x k : Z) : Z :=
+  let s := k mod 64 in Z.lor (go_shl (U 64) x s) (go_shr (U 64) x (64 - s)).
 
 Fixpoint while {S : Type} (fuel : nat) (c : S -> bool) (b : S -> S) (s : S) : option S :=
   match fuel with
